@@ -5,6 +5,7 @@ package main
 import (
 	"bytes"
 	"encoding/hex"
+	"encoding/json"
 	"fmt"
 	"regexp"
 
@@ -83,18 +84,27 @@ func run(c *mon.Ctx) {
 	c.Set("exhaustive_shapes", true)
 }
 
+// lazyFrame renders the abstract frame only if the detail is actually written out.
+type lazyFrame struct{ f *ref.Frame }
+
+func (l lazyFrame) MarshalJSON() ([]byte, error) { return ref.JSON(l.f), nil }
+
 type detail struct {
 	ID     string      `json:"id"`
 	Comp   string      `json:"compression"`
 	Flag   bool        `json:"compressed_flag"`
 	Frame  interface{} `json:"frame"`
-	Bytes  string      `json:"bytes_hex,omitempty"`
+	Bytes  interface{} `json:"bytes_hex,omitempty"`
 	Got    interface{} `json:"got,omitempty"`
 	Err    string      `json:"error,omitempty"`
 	Diff   string      `json:"diff,omitempty"`
 	Seed   int64       `json:"seed"`
 	Varied uint64      `json:"variant_stream"`
 }
+
+type lazyHex []byte
+
+func (l lazyHex) MarshalJSON() ([]byte, error) { return json.Marshal(hexCap(l)) }
 
 func hexCap(b []byte) string {
 	if len(b) > 2048 {
@@ -109,7 +119,7 @@ func one(c *mon.Ctx, codec frame.RawCodec, comp string, cs gen.Case, id string, 
 	flag := comp != "none" && a.Version != ref.V5 && compressible(a.Msg.Opcode())
 	vr := bridge.NewVariant(mon.NewRand(c.Seed, hash(id)^stream))
 	f := bridge.ToLib(a, flag, vr)
-	d := detail{ID: id, Comp: comp, Flag: flag, Frame: ref.JSON(a), Seed: c.Seed, Varied: hash(id) ^ stream}
+	d := detail{ID: id, Comp: comp, Flag: flag, Frame: lazyFrame{a}, Seed: c.Seed, Varied: hash(id) ^ stream}
 	c.Eval(1)
 	var buf bytes.Buffer
 	if err := codec.EncodeFrame(f, &buf); err != nil {
@@ -118,7 +128,7 @@ func one(c *mon.Ctx, codec frame.RawCodec, comp string, cs gen.Case, id string, 
 		return
 	}
 	b := buf.Bytes()
-	d.Bytes = hexCap(b)
+	d.Bytes = lazyHex(b)
 	rd := bytes.NewReader(b)
 	f2, err := codec.DecodeFrame(rd)
 	if err != nil {
